@@ -253,6 +253,7 @@ Section Rules.
   Hypothesis Hspec : forall dn d, find_dir (s_dirs o) dn = Some d -> d_specified d = true ->
                                   find_dir (s_dirs n) dn = Some d.
   Variable vars : list (str * (ty * bool)).
+  Variable frags : list fragment_def.
 
   Lemma user_body_kept tn b :
     user_body o tn = Some b ->
@@ -478,9 +479,9 @@ Section Rules.
   (* the whole selection: FieldsOnCorrectType and ScalarLeafs are established
      here, the other rules through the lemmas above *)
   Fixpoint csel_ok_kept (x : csel) : forall parent,
-    csel_ok scalar_lit o vars x parent -> csel_ok scalar_lit n vars x parent.
+    csel_ok scalar_lit o vars frags x parent -> csel_ok scalar_lit n vars frags x parent.
   Proof.
-    destruct x as [name args dirs sub|tc dirs sub]; intros parent H; simpl in H |- *.
+    destruct x as [name args dirs sub|tc dirs sub|name dirs]; intros parent H; simpl in H |- *.
     - destruct H as (fs & f & (Hc & Hf) & Ha & Hd & Hsub).
       destruct (composite_kept o n NB Hintro Hwf _ _ Hc) as (fs' & Hc' & Hnb & _ & Hun).
       destruct (field_kept _ _ _ _ _ Hnb Hf) as (g & Hg & Hgin & Hdf).
@@ -509,6 +510,18 @@ Section Rules.
       split; [apply rule_known_directives_kept; exact Hd|].
       induction sub as [|y l IHl]; [exact I|].
       destruct Hall as [Hy Hl']. split; [apply csel_ok_kept; exact Hy|apply IHl; exact Hl'].
+    - (* named spread: PossibleFragmentSpreads + KnownDirectives *)
+      destruct H as (fr & Hf & Hov & Hd). exists fr. split; [exact Hf|].
+      split; [apply rule_possible_fragment_spreads_kept; exact Hov|apply rule_known_directives_kept; exact Hd].
+  Qed.
+
+  (* a fragment definition stays valid *)
+  Lemma fragment_ok_kept fr :
+    fragment_ok scalar_lit o vars frags fr -> fragment_ok scalar_lit n vars frags fr.
+  Proof.
+    intros (Hc & Hd & Hall). split; [apply rule_composite_type_kept; exact Hc|].
+    split; [apply rule_known_directives_kept; exact Hd|].
+    eapply Forall_impl; [|exact Hall]. intros x. apply csel_ok_kept.
   Qed.
 End Rules.
 
@@ -518,10 +531,12 @@ Theorem operations_kept scalar_lit o n op :
   (forall k, root_of o k = root_of n k) ->
   op_ok scalar_lit o op -> op_ok scalar_lit n op.
 Proof.
-  intros NB Hi Hw Hs Hr (root & Hroot & Hc & Hv & Hd & Hall).
+  intros NB Hi Hw Hs Hr (root & Hroot & Hc & Hv & Hd & Hall & Hfr).
   exists root. split; [rewrite <- Hr; exact Hroot|].
   split; [apply (rule_composite_type_kept o n NB Hi Hw); exact Hc|].
   split; [apply (rule_variable_types_kept o n NB Hi); exact Hv|].
   split; [apply (rule_known_directives_kept scalar_lit o n NB Hi Hw Hs); exact Hd|].
-  eapply Forall_impl; [|exact Hall]. intros x. apply (csel_ok_kept scalar_lit o n NB Hi Hw Hs).
+  split.
+  - eapply Forall_impl; [|exact Hall]. intros x. apply (csel_ok_kept scalar_lit o n NB Hi Hw Hs).
+  - eapply Forall_impl; [|exact Hfr]. intros fr. apply (fragment_ok_kept scalar_lit o n NB Hi Hw Hs).
 Qed.
